@@ -15,7 +15,10 @@ EXPLANATION = (
     "the Switch value setter - with check_value_type, check_value, the vocabulary check and SwitchVector.apply_rule inlined - on an "
     "abstract vector of 3 switches for every rule x every configuration (2^3) x every written switch x {On, Off, invalid}, and compares "
     "the post-state with the oracle table (others cleared / forced back On iff no other On / unchanged), checks that the written switch "
-    "is On after an On-write, that an invalid value raises before any store, and that the update is published after all stores. C09.BOOL: "
+    "is On after an On-write, that an invalid value raises before any store, and that the update is published after all stores. The abstract "
+    "vector is built by interpreting the real definition and instance constructors, so auxiliary fields exist as the code initialises them. "
+    "C09.REACH closes the step relation under write sequences: every reachable (switch values, auxiliary state) state is explored from all 8 "
+    "initial configurations and each transition is compared with the rule table (a cached selection that goes stale is caught here). C09.BOOL: "
     "bool_value assigns On/Off through the value property. C09.BULK: the selected_value(s) setters are interpreted with everything "
     "inlined on the same domain (all subsets as selection) and the post-state must be the rule-consistent result of the equivalent "
     "sequence of single writes; unknown names raise before any change. C09.GATE: every store to an element's _value in the driver package "
